@@ -1,6 +1,7 @@
 package segment
 
 import (
+	"github.com/datastax/go-cassandra-native-protocol/crc"
 	"bytes"
 
 	"github.com/datastax/go-cassandra-native-protocol/compression/lz4"
@@ -45,6 +46,23 @@ func verifPayloadAccept(n int) {
 	nd.ExportPC("accept")
 	nd.Assert(bytes.Equal(p.UncompressedData, x[:n]), "accepted payload is the transmitted payload")
 }
+
+// the same through a codec that has a compressor, for a segment the sender chose not to compress (compressed-length
+// field 0): the payload is delivered as transmitted, so its CRC-32 is the only protection
+func verifPayloadAcceptLZ4Raw(n int) {
+	x := nd.Bytes("x", n+4)
+	c := &codec{compressor: lz4.Compressor{}}
+	p, err := c.decodeSegmentPayload(&Header{UncompressedPayloadLength: int32(n), CompressedPayloadLength: 0}, bytes.NewReader(x))
+	if err != nil {
+		nd.Assert(p == nil, "a rejected payload yields no payload")
+		return
+	}
+	nd.ExportPC("accept")
+	nd.Assert(bytes.Equal(p.UncompressedData, x[:n]), "accepted payload is the transmitted payload")
+}
+
+func VerifC07_PayloadAcceptLZ4Raw_n4()  { verifPayloadAcceptLZ4Raw(4) }
+func VerifC07_PayloadAcceptLZ4Raw_n16() { verifPayloadAcceptLZ4Raw(16) }
 
 func VerifC07_PayloadAccept_n1()  { verifPayloadAccept(1) }
 func VerifC07_PayloadAccept_n4()  { verifPayloadAccept(4) }
@@ -135,6 +153,21 @@ func VerifReplayC07() {
 		h, err := c.decodeSegmentHeader(bytes.NewReader(b))
 		nd.Assert(err != nil, "corrupted header is rejected")
 		nd.Assert(h == nil || err == nil, "no header returned on rejection")
+	case 3:
+		// payload of an uncompressed segment read by a codec that has a compressor
+		c := &codec{compressor: lz4.Compressor{}}
+		b := make([]byte, n+4)
+		sum := crc.ChecksumIEEE(b[:n])
+		b[n], b[n+1], b[n+2], b[n+3] = byte(sum), byte(sum>>8), byte(sum>>16), byte(sum>>24)
+		p, err := c.decodeSegmentPayload(&Header{UncompressedPayloadLength: int32(n)}, bytes.NewReader(b))
+		nd.Assert(err == nil && p != nil, "intact payload is accepted")
+		e := nd.Bytes("e", n+4)
+		for i := range e {
+			b[i] ^= e[i]
+		}
+		q, err := c.decodeSegmentPayload(&Header{UncompressedPayloadLength: int32(n)}, bytes.NewReader(b))
+		nd.Assert(err != nil, "corrupted payload is rejected")
+		nd.Assert(q == nil || err == nil, "no payload returned on rejection")
 	default:
 		c := NewCodec()
 		buf := &bytes.Buffer{}
